@@ -141,8 +141,15 @@ NumMarks(e) ==
   LET ns == ItemNumerals(e.item) \cup ItemNumerals(e.values)
       arith == e.op \in {"Apply", "ApplyText"}
       \* ... or an exact sum / difference of two of them that a float64 cannot carry (1e19 + 1)
-      long(n) == Len(DNorm(n).d) > 15
-  IN (IF (\E n \in ns : long(n)) \/ (arith /\ \E x, y \in ns : long(DAdd(x, y)) \/ long(DSub(x, y)))
+      \* a float64 carries 15 significant decimal digits, and every integer up to 2^53 exactly
+      p53 == [neg |-> FALSE, d |-> <<9,0,0,7,1,9,9,2,5,4,7,4,0,9,9,2>>, e |-> 0]
+      long(n) == LET a == DNorm(n) IN Len(a.d) > 15 /\ (a.e < 0 \/ DLess(p53, [n EXCEPT !.neg = FALSE]))
+      \* the exact result of a tree-shaped update case, when it has one: only ITS numerals count; otherwise (text cases, results the
+      \* specification refuses) any sum or difference of two numerals of the case
+      res == IF e.op = "Apply" THEN ApplyU(e.ast, e.item, e.names, e.values, {"pk"}) ELSE [ok |-> FALSE, item |-> <<>>]
+      longResult == IF res.ok THEN \E n \in ItemNumerals(res.item) : long(n)
+                    ELSE \E x, y \in ns : long(DAdd(x, y)) \/ long(DSub(x, y))
+  IN (IF (\E n \in ns : long(n)) \/ (arith /\ longResult)
       THEN { <<"number", "more-than-15-digits">> } ELSE {})
      \cup (IF arith /\ \E n \in ns : DNorm(n).e < 0 THEN { <<"number", "fraction-in-update">> } ELSE {})
 LabSig1(e) == IF e.op \in {"MatchText", "ApplyText"} THEN TextSig(e) ELSE
